@@ -10,28 +10,34 @@ pub struct CertGroup;
 
 pub struct Pair { pub cert_pem: String, pub key_pem: String, pub cert_der: Vec<u8>, pub serial: String }
 
-pub fn make_pair(name: &str, expired: bool) -> Pair {
+pub fn make_pair(name: &str, expired: bool) -> Pair { make_pair_with(name, expired, None, 2036) }
+
+/// `serial`: a fixed serial number (two pairs may share one: a renewal that keeps its serial); `until`: last year of validity
+pub fn make_pair_with(name: &str, expired: bool, serial: Option<u64>, until: i32) -> Pair {
     let mut params = rcgen::CertificateParams::new(vec![format!("{name}.test")]).unwrap();
     if expired {
         params.not_before = rcgen::date_time_ymd(2019, 1, 1);
         params.not_after = rcgen::date_time_ymd(2020, 1, 1);
     } else {
         params.not_before = rcgen::date_time_ymd(2024, 1, 1);
-        params.not_after = rcgen::date_time_ymd(2036, 1, 1);
+        params.not_after = rcgen::date_time_ymd(until, 1, 1);
     }
+    if let Some(n) = serial { params.serial_number = Some(rcgen::SerialNumber::from(n)); }
     let key = rcgen::KeyPair::generate().unwrap();
     let cert = params.self_signed(&key).unwrap();
     let cert_pem = cert.pem();
-    let serial = anytls_rs::util::CertificateInfo::from_pem_bytes(cert_pem.as_bytes()).map(|i| i.serial_number).unwrap_or_default();
+    let info = anytls_rs::util::CertificateInfo::from_pem_bytes(cert_pem.as_bytes()).ok();
+    // identity as reported by get_cert_info: serial number and end of validity (two pairs may share a serial)
+    let serial = info.map(|i| format!("{}/{:?}", i.serial_number, i.not_after)).unwrap_or_default();
     Pair { cert_pem, key_pem: key.serialize_pem(), cert_der: cert.der().to_vec(), serial }
 }
 
 /// file content for a state name; `None` = the file is missing
 fn content(pairs: &[Pair], which: &str, is_key: bool) -> Option<Vec<u8>> {
-    let pick = |c: char| -> &Pair { &pairs[match c { 'A' => 0, 'B' => 1, 'C' => 2, _ => 3 }] };
+    let pick = |c: char| -> &Pair { &pairs[match c { 'A' => 0, 'B' => 1, 'C' => 2, 'D' => 4, _ => 3 }] };
     let full = |c: char| -> Vec<u8> { let p = pick(c); if is_key { p.key_pem.clone().into_bytes() } else { p.cert_pem.clone().into_bytes() } };
     match which {
-        "A" | "B" | "C" | "E" => Some(full(which.chars().next().unwrap())),
+        "A" | "B" | "C" | "E" | "D" => Some(full(which.chars().next().unwrap())),
         "missing" => None,
         "empty" => Some(vec![]),
         "garbage" => Some(b"-----BEGIN CERTIFICATE-----\nnot base64 at all !!!\n-----END CERTIFICATE-----\n".to_vec()),
@@ -69,7 +75,7 @@ fn content(pairs: &[Pair], which: &str, is_key: bool) -> Option<Vec<u8>> {
 /// construction: a certificate file is valid iff its first PEM block is the complete certificate of a
 /// generated pair, a key file iff it is the complete key; the pair is valid iff both belong together.
 fn valid_pair(pairs: &[Pair], cert: &str, key: &str) -> Option<(char, bool)> {
-    let ids = ['A', 'B', 'C', 'E'];
+    let ids = ['A', 'B', 'C', 'E', 'D'];
     // a file whose later block is damaged is a truncation prefix: not a valid state, whatever its first block is
     if cert.starts_with("chaincut:") || key.starts_with("chaincut:") { return None; }
     let cb = content(pairs, cert, false)?;
@@ -82,7 +88,7 @@ fn valid_pair(pairs: &[Pair], cert: &str, key: &str) -> Option<(char, bool)> {
     match (leaf, k) { (Some(c), Some(k)) if c == k => Some((c, c == 'E')), _ => None }
 }
 
-const STATES: [&str; 17] = ["A", "B", "C", "E", "missing", "empty", "garbage", "trunc:A:e300", "trunc:B:s10", "trunc:B:e3", "trunc:C:e1", "trunc:A:s0", "chain:BA", "chain:CB", "chaincut:BA:e40", "chaincut:CB:e300", "chaincut:BC:e7"];
+const STATES: [&str; 18] = ["A", "B", "C", "E", "D", "missing", "empty", "garbage", "trunc:A:e300", "trunc:B:s10", "trunc:B:e3", "trunc:C:e1", "trunc:A:s0", "chain:BA", "chain:CB", "chaincut:BA:e40", "chaincut:CB:e300", "chaincut:BC:e7"];
 
 impl Group for CertGroup {
     fn default_cases(&self, tier: &str) -> u64 { if tier == "thorough" { 3_000 } else { 150 } }
@@ -103,6 +109,9 @@ impl Group for CertGroup {
             v.push(l(vec!["cert init A 1".into(), format!("cert disk chaincut:BA:e{k} B"), "cert reload".into(), "cert state".into(), "cert disk chain:BA B".into(), "cert reload".into(), "cert state".into()]));
         }
         // a two-file update observed at every point: cert replaced alone, key replaced alone, then complete
+        // a renewal that keeps the serial number (new key, longer validity): it must be served like any other valid pair
+        v.push(l(vec!["cert init A 1".into(), "cert disk D D".into(), "cert reload".into(), "cert state".into(), "cert ping".into(), "cert disk A A".into(), "cert reload".into(), "cert state".into(), "cert ping".into()]));
+        v.push(l(vec!["cert init A 0".into(), "cert hold".into(), "cert disk D A".into(), "cert reload".into(), "cert state".into(), "cert disk D D".into(), "cert reload".into(), "cert state".into(), "cert ping".into()]));
         v.push(l(vec!["cert init A 1".into(), "cert disk B A".into(), "cert reload".into(), "cert state".into(), "cert disk B B".into(), "cert reload".into(), "cert state".into()]));
         v.push(l(vec!["cert init A 1".into(), "cert disk A B".into(), "cert reload".into(), "cert state".into(), "cert disk B B".into(), "cert reload".into(), "cert state".into()]));
         // the disk changes while a reload is in progress (DESIGN §6 D17: the certificate file was read twice)
@@ -120,9 +129,9 @@ impl Group for CertGroup {
         let mut lines = vec![format!("cert init {} {}", rng.pick(&["A", "B"]), rng.below(2))];
         for _ in 0..rng.range(3, 12) {
             let l = match rng.below(10) {
-                0..=3 => { let c = *rng.pick(&STATES); let k = if rng.chance(1, 2) && c.len() == 1 { c } else { *rng.pick(&STATES[..12]) }; format!("cert disk {c} {k}") }
+                0..=3 => { let c = *rng.pick(&STATES); let k = if rng.chance(1, 2) && c.len() == 1 { c } else { *rng.pick(&STATES[..13]) }; format!("cert disk {c} {k}") }
                 4..=6 => "cert reload".to_string(),
-                7 => format!("cert reload_at {} {} {}", rng.pick(&["reload:after_config", "reload:between_reads", "reload:after_reads"]), rng.pick(&STATES[..7]), rng.pick(&STATES[..7])),
+                7 => format!("cert reload_at {} {} {}", rng.pick(&["reload:after_config", "reload:between_reads", "reload:after_reads"]), rng.pick(&STATES[..8]), rng.pick(&STATES[..8])),
                 8 => if rng.chance(1, 2) { "cert hold".to_string() } else { "cert ping".to_string() },
                 _ => "cert state".to_string(),
             };
@@ -145,8 +154,8 @@ impl Group for CertGroup {
                 match content(&pairs, state, is_key) { Some(b) => std::fs::write(path, b).unwrap(), None => { let _ = std::fs::remove_file(path); } }
             }
         };
-        let id_of_serial = |s: &str| -> String { for (i, p) in pairs.iter().enumerate() { if p.serial == s { return ["A", "B", "C", "E"][i].to_string(); } } "?".into() };
-        let id_of_der = |d: &[u8]| -> String { for (i, p) in pairs.iter().enumerate() { if p.cert_der == d { return ["A", "B", "C", "E"][i].to_string(); } } "?".into() };
+        let id_of_serial = |s: &str| -> String { for (i, p) in pairs.iter().enumerate() { if p.serial == s { return ["A", "B", "C", "E", "D"][i].to_string(); } } "?".into() };
+        let id_of_der = |d: &[u8]| -> String { for (i, p) in pairs.iter().enumerate() { if p.cert_der == d { return ["A", "B", "C", "E", "D"][i].to_string(); } } "?".into() };
         // a TLS session established earlier and kept across reloads (both ends)
         let mut held: Option<(tokio_rustls::client::TlsStream<tokio::io::DuplexStream>, tokio_rustls::server::TlsStream<tokio::io::DuplexStream>, String)> = None;
         let mut reloader: Option<Arc<CertReloader>> = None;
@@ -232,7 +241,7 @@ impl Group for CertGroup {
                 }
                 ["cert", "state"] => {
                     let Some(r) = reloader.as_ref() else { out.obs.push("nonode".into()); continue; };
-                    let info = r.get_cert_info().map(|i| id_of_serial(&i.serial_number)).unwrap_or("-".into());
+                    let info = r.get_cert_info().map(|i| id_of_serial(&format!("{}/{:?}", i.serial_number, i.not_after))).unwrap_or("-".into());
                     let acceptor = r.get_acceptor();
                     let presented = rt.block_on(async {
                         let (a, b) = tokio::io::duplex(16384);
@@ -265,5 +274,6 @@ impl Group for CertGroup {
 }
 
 thread_local! {
-    static PAIRS: Arc<Vec<Pair>> = Arc::new(vec![make_pair("a", false), make_pair("b", false), make_pair("c", false), make_pair("e", true)]);
+    // A and D share their serial number (D is a renewal of A that keeps the serial: new key, longer validity)
+    static PAIRS: Arc<Vec<Pair>> = Arc::new(vec![make_pair_with("a", false, Some(0x4131), 2036), make_pair("b", false), make_pair("c", false), make_pair("e", true), make_pair_with("a", false, Some(0x4131), 2037)]);
 }
